@@ -1,6 +1,6 @@
 From Coq Require Import ZArith List Bool Reals Lra.
 From Flocq Require Import Core BinarySingleNaN.
-Require Import GV.FloatBase GV.FloatLemmas GV.AngleM GV.AngleProofs GV.GeonumM GV.GeonumProofs GV.TraitsM.
+Require Import GV.FloatBase GV.FloatLemmas GV.AngleM GV.AngleProofs GV.GeonumM GV.GeonumProofs GV.TraitsM GV.NewProofs GV.CtorProofs GV.ClosureProofs.
 Open Scope R_scope.
 Require Import GV.Properties.C10.
 Check C10_wedge : forall (L : libm) a b,
@@ -18,3 +18,8 @@ Check C10_wedge_blades : forall (L : libm) a b, canonp (rem (ang a)) -> canonp (
   canonp (rem (ang (wedge L a b))) /\
   (blade (ang a) + blade (ang b) + 1 <= blade (ang (wedge L a b)) <= blade (ang a) + blade (ang b) + 4)%Z.
 Print Assumptions C10_wedge_blades.
+Check C10_parallel : forall (L : libm) a b, sin_zero_zero L -> fin (rem (ang a)) -> ang b = ang a ->
+  fin (fmul (mag a) (mag b)) -> R_ (mag (wedge L a b)) = 0.
+Print Assumptions C10_parallel.
+Check C10_special_hyps_inhabited : cos_zero_one trivial_libm /\ sin_zero_zero trivial_libm.
+Print Assumptions C10_special_hyps_inhabited.
